@@ -6,8 +6,8 @@ curve (not only of the order-`r` subgroup) cofactor clearing is multiplication b
 Mathlib's group `(W b).Point`; it is additive and maps the identity to the identity.
 
 The subgroup clauses keep the hypotheses of C17, with the same names: `hexp` (the exponent of
-`E(Fq)` divides `(1 − x)·r`) and `hord` (`#E'(Fq2) = h₂·r`).  They are not provable in this
-development (no point counting).
+`E(Fq)` divides `(1 − x)·r`) and `hord` (`#E'(Fq2) = h₂·r`).  They are hypotheses in this file and
+are PROVED in PP.Props.CurveOrder (without point counting: trivial bound + negative trace + explicit generators).
 -/
 import PP.Proofs.Assembly
 import PP.Proofs.Subgroup
